@@ -707,7 +707,7 @@ var _ = types.Typ
 // was parsed and that dominate the step. Otherwise `@else` (or the condition of an `@elseif`) is swallowed into the
 // branch that precedes it.
 func (m *Model) RunBlockEnd(s *Sink, rule string) {
-	pb := m.Method("parser", "Parser", "parseBlockStmt")
+	pb := m.blockParser()
 	ps := m.Method("parser", "Parser", "parseStatement")
 	nt := m.Method("parser", "Parser", "nextToken")
 	if pb == nil || ps == nil || nt == nil {
